@@ -30,7 +30,7 @@ func dirtyScript(rng *Rng, id string, withNext, canPanic bool) []Action {
 		}
 		switch rng.Intn(14) {
 		case 12:
-			s = append(s, Action{Op: "copy"})
+			s = append(s, Action{Op: rng.Pick([]string{"copy", "copy", "introspect", "cancelreq"})})
 		case 13:
 			s = append(s, Action{Op: "usecopy", S: "bgkey", V: id})
 		case 0, 1:
@@ -254,9 +254,9 @@ func checkC10(sc *Scenario) *CheckOut {
 
 func init() {
 	rule := "a run is non-trivial when at least one request received a context that an earlier request had used (measured by object identity in the simulated pool)"
-	register(&Profile{Prop: "C10", Name: "sequential", Quick: 24000, Thorough: 500000, Gen: genC10("sequential"), Check: checkC10, Rule: rule, Faulty: true})
+	register(&Profile{Prop: "C10", Name: "sequential", Quick: 16000, Thorough: 500000, Gen: genC10("sequential"), Check: checkC10, Rule: rule, Faulty: true})
 	register(&Profile{Prop: "C10", Name: "concurrent-race", Race: true, Quick: 1500, Thorough: 40000, Gen: coarseRace(genC10("concurrent")), Check: checkC10,
 		Rule: "as concurrent, executed under the race detector with coarse schedules", Faulty: true})
-	register(&Profile{Prop: "C10", Name: "concurrent", Quick: 15000, Thorough: 300000, Gen: genC10("concurrent"), Check: checkC10, Rule: rule, Faulty: true})
+	register(&Profile{Prop: "C10", Name: "concurrent", Quick: 10000, Thorough: 300000, Gen: genC10("concurrent"), Check: checkC10, Rule: rule, Faulty: true})
 	register(&Profile{Prop: "C10", Name: "redispatch", Quick: 9000, Thorough: 100000, Gen: genC10("redispatch"), Check: checkC10, Rule: rule, Faulty: true})
 }
